@@ -156,43 +156,71 @@ func runC13(r *Run) {
 		if len(cifs) == 0 {
 			closed.Violation(fn, fn.Pos(), "missing closed test", "method touches the table/handler without testing the closed flag: after Close it must return ErrAgentClosed and emit nothing")
 		} else {
-			ci := cifs[0]
-			fromT := blockReach(ci.OnTrue)
+			// per path: a mutation of the shared state or a handler call needs closed == false known on
+			// the path; a path on which closed == true is known touches nothing and returns ErrAgentClosed
+			// (plain reads before the test are harmless: a closed agent's table is nil and reads as empty)
+			ckey, cpol := k.condKey(cifs[0].Val)
+			mutating := map[ssa.Instruction]sharedAccess{}
 			for _, a := range accs {
 				if _, fresh := a.Base.(*ssa.Alloc); fresh {
 					continue
 				}
-				bb := a.In.Block()
-				if !ci.If.Block().Dominates(bb) || bb == ci.If.Block() {
-					// access in the same block before the If, or not dominated
-					if bb == ci.If.Block() {
-						closed.Violation(fn, instrPos(a.In), describeAccess(a), "shared state is accessed before the closed flag has been tested")
-					} else {
-						closed.Violation(fn, instrPos(a.In), describeAccess(a), "shared state is accessed on a path that does not pass the closed test")
-					}
-					continue
-				}
-				if fromT[bb] && !blockReach(ci.OnFalse)[bb] {
-					closed.Violation(fn, instrPos(a.In), describeAccess(a), "shared state is accessed on the closed edge")
+				if a.isWrite() {
+					mutating[a.In] = a
 				}
 			}
+			isH := map[ssa.Instruction]bool{}
 			for _, hc := range hcalls {
-				if fromT[hc.Block()] && !blockReach(ci.OnFalse)[hc.Block()] {
-					closed.Violation(fn, instrPos(hc), "handler call", "an event is emitted although the agent is closed")
-				}
+				isH[hc] = true
 			}
-			nret := 0
-			for _, ret := range returnsOf(fn) {
-				if fromT[ret.Block()] && !blockReach(ci.OnFalse)[ret.Block()] {
-					nret++
-					idx := errorResultIndex(fn)
-					if idx < 0 || !loadsGlobal(ret.Results[idx], m.ErrClosed) {
-						closed.Violation(fn, instrPos(ret), "return on closed edge", "the closed edge must return ErrAgentClosed")
+			const touched = 1
+			rep := map[ssa.Instruction]bool{}
+			nClosedRet := 0
+			idx := errorResultIndex(fn)
+			q := &PathQuery{P: p, Fn: fn, K: k}
+			q.Step = func(in ssa.Instruction, deferred bool, st uint64, c *PathCtx) (uint64, bool) {
+				a, isM := mutating[in]
+				if !isM && !isH[in] {
+					return st, false
+				}
+				v, known := c.Known(ckey)
+				isClosed := known && v == cpol
+				if !rep[in] {
+					what := "handler call"
+					if isM {
+						what = describeAccess(a)
+					}
+					switch {
+					case !known:
+						rep[in] = true
+						closed.ViolationPath(fn, instrPos(in), what, "shared state is changed (or an event emitted) on a path that has not tested the closed flag", c.Witness(fn, in))
+					case isClosed:
+						rep[in] = true
+						closed.ViolationPath(fn, instrPos(in), what, "shared state is changed (or an event emitted) on the closed edge", c.Witness(fn, in))
 					}
 				}
+				return st | touched, false
 			}
-			if nret == 0 {
-				closed.Violation(fn, instrPos(ci.If), "closed edge", "the closed edge does not return: calls on a closed agent go on to use the table")
+			q.AtReturn = func(ret *ssa.Return, st uint64, c *PathCtx) {
+				v, known := c.Known(ckey)
+				if !known || v != cpol {
+					return
+				}
+				nClosedRet++
+				if rep[ret] {
+					return
+				}
+				if idx < 0 || !loadsGlobal(c.Resolve(deref(c.Resolve(ret.Results[idx]))), m.ErrClosed) {
+					rep[ret] = true
+					closed.ViolationPath(fn, instrPos(ret), "return on closed edge", "the closed edge must return ErrAgentClosed", c.Witness(fn, ret))
+				}
+			}
+			q.Run()
+			if q.Exhausted {
+				closed.Violation(fn, fn.Pos(), "path exploration exhausted", "undecided")
+			}
+			if nClosedRet == 0 {
+				closed.Violation(fn, instrPos(cifs[0].If), "closed edge", "the closed edge does not return: calls on a closed agent go on to use the table")
 			}
 		}
 
@@ -213,7 +241,7 @@ func runC13(r *Run) {
 					e, isE := v.(*ssa.Extract)
 					return isE && e.Tuple == ssa.Value(lk) && e.Index == 1
 				}) {
-					if len(ci.OnFalse.Preds) == 1 && ci.OnFalse.Dominates(mu.Block()) && !blockReach(ci.OnTrue)[mu.Block()] {
+					if len(ci.OnFalse.Preds) == 1 && blockDominates(ci.OnFalse, mu.Block()) && !blockReach(ci.OnTrue)[mu.Block()] {
 						ok = true
 						// exists edge returns error
 						for _, ret := range returnsOf(fn) {
@@ -297,7 +325,7 @@ func runC13(r *Run) {
 						terminal.Violation(fn, instrPos(hc), "event ID", fmt.Sprintf("the emitted event carries TransactionID %q, not the removed ID %q", id, kk))
 					}
 					if existsIf != nil {
-						if !(existsIf.OnTrue.Dominates(hc.Block()) && len(existsIf.OnTrue.Preds) == 1) {
+						if !(blockDominates(existsIf.OnTrue, hc.Block()) && len(existsIf.OnTrue.Preds) == 1) {
 							terminal.Violation(fn, instrPos(hc), "event without registration", "the handler is invoked although the ID was not registered (must report not-exists and emit nothing)")
 						}
 					}
@@ -394,7 +422,7 @@ func runC13(r *Run) {
 						}
 					}
 				})
-				if hia != nil && fullRangeLoop(hl, S, hia) && lp.Header.Dominates(hl.Header) {
+				if hia != nil && fullRangeLoop(hl, S, hia) && blockDominates(lp.Header, hl.Header) {
 					paired = true
 				}
 			}
@@ -403,7 +431,7 @@ func runC13(r *Run) {
 			}
 			for _, hc := range hcalls {
 				order.Instance(fnName(fn)+"|order", true, map[string]string{"fn": fnName(fn), "lockset_at_handler_call": heldString(li.Held(hc))})
-				if !lp.Header.Dominates(hc.Block()) || lp.Body[hc.Block()] {
+				if !blockDominates(lp.Header, hc.Block()) || lp.Body[hc.Block()] {
 					order.Violation(fn, instrPos(hc), "handler before removal", "handlers run before all collected transactions are unregistered")
 				}
 			}
@@ -461,7 +489,7 @@ func runC13(r *Run) {
 					// every path through the body passes the call: the call's block dominates the latch
 					domAll := true
 					for _, lt := range lp.Latch {
-						if !hc.Block().Dominates(lt) {
+						if !blockDominates(hc.Block(), lt) {
 							domAll = false
 						}
 					}
